@@ -522,7 +522,11 @@ Definition columns_fits (items : col_items) (fp dc mw : Z) (s : size) : bool :=
   negb (n =? 0) && (0 <=? fp) && (fp <? n) && (0 <=? dc) && (zlen cs =? n)
   && forallb (fun t => (1 <=? fst (fst t)) && (1 <=? snd (fst t))
                        && match snd s with Some maxrow => snd (fst t) <=? maxrow | None => true end) cs
-  && (zsum (map (fun t => fst (fst t)) cs) + dc * (n - 1) <=? fst s).
+  && (zsum (map (fun t => fst (fst t)) cs) + dc * (n - 1) <=? fst s)
+  (* the static needs (given widths, min_width of the weighted columns, dividers) fit: no column is ever dropped,
+     whatever the focus *)
+  && forallb (fun it => 0 <=? static_w (fst (fst it)) mw) items
+  && (zsum (map (fun it => static_w (fst (fst it)) mw + dc) items) <=? fst s + dc).
 
 (* ------------------------------------------------------------------------------------------ *)
 (* Frame (frame.py); children: 0 = body, 1 = header, 2 = footer; box widget only               *)
